@@ -297,6 +297,43 @@ Theorem election_power_error_exactly :
 Proof. exact election_power_error_iff. Qed.
 Print Assumptions election_power_error_exactly.
 
+(* ---- scheduler parameter changes (after commit 2b1f48e) ---- *)
+
+(* accepted changes keep MinValidators / MaxValidators positive and consistent, for any
+   sequence of proposed changes (refused ones change nothing) *)
+Theorem scheduler_changes_keep_parameters_consistent :
+  forall cs pmin pmax,
+    sched_consistent pmin pmax ->
+    sched_consistent (fst (sched_run cs pmin pmax)) (snd (sched_run cs pmin pmax)).
+Proof. exact sched_run_consistent. Qed.
+Print Assumptions scheduler_changes_keep_parameters_consistent.
+
+(* so the "insufficient validators" failure is unreachable through parameter changes alone:
+   with the resulting parameters the election succeeds whenever MinValidators stake-eligible
+   candidates exist *)
+Theorem election_not_insufficient_by_parameter_changes :
+  forall cs pmin0 pmax0 p ents perm_e cands sh,
+    sched_consistent pmin0 pmax0 ->
+    Z.of_N (p_min p) = fst (sched_run cs pmin0 pmax0) ->
+    Z.of_N (p_max p) = snd (sched_run cs pmin0 pmax0) ->
+    let seq := cand_seq_sh p ents perm_e cands sh in
+    powers_defined p ents seq -> NoDup (map n_cons seq) ->
+    p_min p <= len seq ->
+    exists vals vents, elect_core p ents perm_e cands sh = VOk vals vents.
+Proof. exact election_not_insufficient_by_parameters. Qed.
+Print Assumptions election_not_insufficient_by_parameter_changes.
+
+(* the ORIGINAL handler (before 2b1f48e) accepted {min 2, max 1}, after which an election
+   with two eligible validators fails with "insufficient validators" *)
+Theorem scheduler_change_original_refuted :
+  sched_change_original (Some 2%Z) (Some 1%Z) 1 100 = Some (2%Z, 1%Z) /\
+  sched_change (Some 2%Z) (Some 1%Z) 1 100 = None /\
+  elect_core (mkParams 2 1 1 true false) [] [0; 1] [ex_node 1; ex_node 2] [ex_node 1; ex_node 2] = VErrInsufficient /\
+  exists vals vents,
+    elect_core (mkParams 1 100 1 true false) [] [0; 1] [ex_node 1; ex_node 2] [ex_node 1; ex_node 2] = VOk vals vents.
+Proof. exact sched_change_original_refuted. Qed.
+Print Assumptions scheduler_change_original_refuted.
+
 (* ---- governance deposits ---- *)
 
 (* For ANY history of proposal submissions, parameter changes (the minimum deposit may go up
